@@ -170,6 +170,10 @@ def make_runner(env, cfg=None):
             got = dict((n, current_params[n]) for n in names)
             hits = [i for i, c in enumerate(combos)
                     if all(c[n] == got[n] for n in names)]
+            if len(hits) > 1:
+                # a value listed twice: the position tells the two apart
+                ui = getattr(current_params, "unpack_index", None)
+                hits = [i for i in hits if i == ui]
             if len(hits) != 1:
                 env.param_errors.append("values %r match variations %r" %
                                         (got, hits))
@@ -228,8 +232,12 @@ def make_runner(env, cfg=None):
             rr = current_sim_results["ratio"][-1]
             env.log.append(("kg", dict(run=env.run_no, v=v, rep=current_rep,
                                        ids=digits4(ids), sumv=sumv)))
-            return stop_model(env.cur["cfg"], v, current_rep, sumv,
+            keep = stop_model(env.cur["cfg"], v, current_rep, sumv,
                               (rr._value, rr._total))
+            if env.cur["cfg"]["stop"].get("ret") == "npbool":
+                # what 'return errors < max_errors' gives with numpy values
+                return np.bool_(keep)
+            return keep
 
     return Recorder()
 
